@@ -1,8 +1,8 @@
 SPECIFICATION Spec
 CONSTANTS
-  MAXARGS = 10
-  LENS = {1, 2, 7, 11}
-  RLIMS = {64, 256, 320, 384, 512, 4000}
+  MAXARGS = 9
+  LENS = {1, 2, 7}
+  RLIMS = {64, 256, 320, 384, 448, 512, 4000}
   ENVS = {0, 2, 6}
   COSTMODEL = "ptr"
 INVARIANTS NeverE2BIG LosslessAlways
